@@ -3294,3 +3294,120 @@ func E4UnboundedQuotientNotMultiplied(c *core.Ctx, r *core.Report) {
 	r.Count("E4.unbounded-quotient-not-multiplied", n)
 	r.Floor("E4.unbounded-quotient-not-multiplied", 1)
 }
+
+// E4ClassRecordsTogether: the per-class records of the best candidate are replaced together.
+func E4ClassRecordsTogether(c *core.Ctx, r *core.Report) {
+	r.Rule("E4.class-records-together", "mainLoop keeps, per fitness class, the best candidate for a new node in parallel arrays (its demerits, the node it comes from, the adjustment ratio of the line): the arrays of mainLoop that are written at a variable index. They describe one candidate, so a statement list that assigns one of them at an index assigns all of them at that index in the same list — not some of them under a further condition. If the ratio is recorded only when the candidate is also the cheapest of all classes, a node created for another class reports ratio 0: the widths and ratios returned are not those of the lines, and ToText justifies that line with the wrong stretch")
+	p := c.MustPkg("text")
+	info := p.TypesInfo
+	fd := core.MustFuncDecl(p, "linebreaker.mainLoop")
+	r.Func("text.linebreaker.mainLoop")
+	// arrays written at a non-constant index
+	arrays := map[types.Object]bool{}
+	ast.Inspect(fd.Body, func(m ast.Node) bool {
+		as, ok := m.(*ast.AssignStmt)
+		if !ok {
+			return true
+		}
+		for _, l := range as.Lhs {
+			ie, ok := core.Unparen(l).(*ast.IndexExpr)
+			if !ok {
+				continue
+			}
+			id, ok := core.Unparen(ie.X).(*ast.Ident)
+			if !ok {
+				continue
+			}
+			if _, isArr := info.TypeOf(id).Underlying().(*types.Array); !isArr {
+				continue
+			}
+			if _, isConst := core.ConstInt(info, ie.Index); isConst {
+				continue
+			}
+			arrays[core.ObjOf(info, id)] = true
+		}
+		return true
+	})
+	if len(arrays) < 2 {
+		r.Fail("E4.class-records-together", "text.linebreaker.mainLoop|per-class arrays", c.Pos(fd.Pos()), "fewer than two arrays written at a variable index were found; the per-class records were not recognised")
+		return
+	}
+	var names []string
+	for o := range arrays {
+		names = append(names, o.Name())
+	}
+	sort.Strings(names)
+	n := 0
+	var visitList func(list []ast.Stmt)
+	var visitStmt func(s ast.Stmt)
+	visitList = func(list []ast.Stmt) {
+		// which arrays does this list assign directly, per index text
+		direct := map[string]map[types.Object]token.Pos{}
+		for _, s := range list {
+			as, ok := s.(*ast.AssignStmt)
+			if !ok {
+				continue
+			}
+			for _, l := range as.Lhs {
+				if ie, ok := core.Unparen(l).(*ast.IndexExpr); ok {
+					if id, ok := core.Unparen(ie.X).(*ast.Ident); ok && arrays[core.ObjOf(info, id)] {
+						k := types.ExprString(ie.Index)
+						if direct[k] == nil {
+							direct[k] = map[types.Object]token.Pos{}
+						}
+						direct[k][core.ObjOf(info, id)] = as.Pos()
+					}
+				}
+			}
+		}
+		var idxs []string
+		for k := range direct {
+			idxs = append(idxs, k)
+		}
+		sort.Strings(idxs)
+		for _, k := range idxs {
+			n++
+			key := fmt.Sprintf("text.linebreaker.mainLoop|records at index %s replaced together #%d", k, n)
+			var missing []string
+			var pos token.Pos
+			for o := range arrays {
+				if p0, ok := direct[k][o]; ok {
+					pos = p0
+				} else {
+					missing = append(missing, o.Name())
+				}
+			}
+			sort.Strings(missing)
+			if len(missing) == 0 {
+				r.OK("E4.class-records-together", key, c.Pos(pos), strings.Join(names, ", "))
+			} else {
+				r.Fail("E4.class-records-together", key, c.Pos(pos), fmt.Sprintf("this statement list replaces the candidate of class %s in some of the parallel arrays (%s) but not in %s: the record then mixes two candidates — the node created from it carries the demerits and parent of one line and the ratio of another (or 0), so the ratio reported for that line is not the line's", k, strings.Join(names, ", "), strings.Join(missing, ", ")))
+			}
+		}
+		for _, s := range list {
+			visitStmt(s)
+		}
+	}
+	visitStmt = func(s ast.Stmt) {
+		switch x := s.(type) {
+		case *ast.BlockStmt:
+			visitList(x.List)
+		case *ast.IfStmt:
+			visitList(x.Body.List)
+			if x.Else != nil {
+				visitStmt(x.Else)
+			}
+		case *ast.ForStmt:
+			visitList(x.Body.List)
+		case *ast.RangeStmt:
+			visitList(x.Body.List)
+		case *ast.SwitchStmt:
+			for _, cs := range x.Body.List {
+				visitList(cs.(*ast.CaseClause).Body)
+			}
+		}
+	}
+	visitList(fd.Body.List)
+	r.Count("E4.class-records-together", n)
+	r.Floor("E4.class-records-together", 1)
+}
